@@ -406,19 +406,108 @@ theorem composeNameList_eq_spec {codes : List Bytes} (ns : List Name) (texts : L
   simp only [pure, Except.pure, Spec.Ssh.nameList, Spec.Ssh.string, Spec.sshString, joinItems_eq_spec]
   rw [← joinItems_eq_spec, encNat_network, beBytes_eq_spec]
 
-theorem parseNameList_join {codes : List Bytes} (texts : List Bytes) (hg : GoodItems comma texts)
-    (ha : ∀ t ∈ texts, isAscii t = true) (hl : (joinItems comma texts).length < 2 ^ 32) (s : Bytes) :
-    parseNameList codes (Spec.Ssh.nameList texts ++ s) =
-      .ok (texts.map (classify codes), 4 + (joinItems comma texts).length) := by
-  have hlt : (joinItems comma texts).length < 256 ^ 4 := by
+/-! #### the length-prefixed body -/
+
+theorem getLast?_append_cons {α : Type} (a : List α) (x : α) (rest : List α) (h : rest ≠ []) :
+    (a ++ x :: rest).getLast? = rest.getLast? := by
+  cases rest with
+  | nil => exact absurd rfl h
+  | cons y ys =>
+    induction a with
+    | nil => simp [List.getLast?_cons_cons]
+    | cons z zs ih =>
+      cases zs with
+      | nil => simp [List.getLast?_cons_cons]
+      | cons w ws =>
+        rw [List.cons_append, List.cons_append, List.getLast?_cons_cons]
+        simpa using ih
+
+/-- conformant names joined by the separator never end in the separator -/
+theorem joinItems_getLast_ne (sep : UInt8) (ns : List Bytes) (h : GoodItems sep ns) :
+    (joinItems sep ns).getLast? ≠ some sep := by
+  induction ns with
+  | nil => simp [joinItems]
+  | cons a rest ih =>
+    cases rest with
+    | nil =>
+      simp only [joinItems]
+      intro hl
+      exact (h a (by simp)).2 (List.mem_of_getLast? hl)
+    | cons b r =>
+      have hrest : GoodItems sep (b :: r) := fun n hn => h n (by simp [hn])
+      simp only [joinItems]
+      rw [getLast?_append_cons _ _ _ (joinItems_ne_nil sep (b :: r) hrest (by simp))]
+      exact ih hrest
+
+theorem parseNum4_take {bs : Bytes} {len m : Nat} (hp : parseNum .network 4 (bs.take 4) = .ok (len, m)) :
+    m = 4 ∧ 4 ≤ bs.length ∧ len = beVal (bs.take 4) ∧ len < 256 ^ 4 := by
+  obtain ⟨hm, hlen, hlt, henc, _⟩ := parseNum_ok_inv hp
+  have h4 : 4 ≤ bs.length := by
+    have h' : (bs.take 4).length = min 4 bs.length := List.length_take
+    omega
+  refine ⟨hm, h4, ?_, hlt⟩
+  have h1 : (bs.take 4).take 4 = bs.take 4 := by rw [List.take_take]; simp
+  rw [h1] at henc
+  have := congrArg (decNat .network) henc
+  rw [decNat_encNat_of_lt _ _ _ hlt] at this
+  rw [this]; rfl
+
+/-- inversion: an accepted body is complete, is exactly the declared slice, does not end in a
+comma, and the consumed length is the header plus the declared length -/
+theorem nameListBody_ok_inv {bs body : Bytes} {n : Nat} (h : nameListBody bs = .ok (body, n)) :
+    4 ≤ bs.length ∧ 4 + beVal (bs.take 4) ≤ bs.length ∧ body = (bs.drop 4).take (beVal (bs.take 4)) ∧
+      body.length = beVal (bs.take 4) ∧ n = 4 + beVal (bs.take 4) ∧ body.getLast? ≠ some comma := by
+  unfold nameListBody at h
+  cases hp : parseNum .network 4 (bs.take 4) with
+  | error e => simp [hp, bind, Except.bind] at h
+  | ok r =>
+    obtain ⟨len, m⟩ := r
+    obtain ⟨hm, h4, hdec, _⟩ := parseNum4_take hp
+    subst hm
+    simp only [hp, bind, Except.bind] at h
+    split at h
+    · simp at h
+    · next hlen =>
+      split at h
+      · simp at h
+      · next hc =>
+        simp only [pure, Except.pure, Except.ok.injEq, Prod.mk.injEq] at h
+        obtain ⟨hb, hn⟩ := h
+        have hbl : ((bs.drop 4).take len).length = len := by
+          simp only [List.length_take, List.length_drop]; omega
+        subst hdec
+        refine ⟨h4, by omega, hb.symm, by rw [← hb]; exact hbl, by rw [← hn, hbl], ?_⟩
+        rw [← hb]
+        simpa using hc
+
+theorem nameListBody_err_inv {bs : Bytes} {e : PErr} (h : nameListBody bs = .error e) :
+    (∃ k : Nat, e = .notEnough k) ∨ e = .invalidValue := by
+  unfold nameListBody at h
+  cases hp : parseNum .network 4 (bs.take 4) with
+  | error e' =>
+    simp [hp, bind, Except.bind] at h
+    obtain ⟨_, he⟩ := parseNum_err_inv vs4 hp
+    subst h
+    exact .inl ⟨_, he⟩
+  | ok r =>
+    obtain ⟨len, m⟩ := r
+    simp only [hp, bind, Except.bind] at h
+    split at h
+    · simp at h; exact .inl ⟨_, h.symm⟩
+    · split at h
+      · simp at h; exact .inr h.symm
+      · simp [pure, Except.pure] at h
+
+/-- the RFC 4251 `string` of a body that does not end in a comma is accepted, whatever follows -/
+theorem nameListBody_string (body : Bytes) (hl : body.length < 2 ^ 32) (hc : body.getLast? ≠ some comma) (s : Bytes) :
+    nameListBody (Spec.Ssh.string body ++ s) = .ok (body, 4 + body.length) := by
+  have hlt : body.length < 256 ^ 4 := by
     have : (256 : Nat) ^ 4 = 2 ^ 32 := by decide
     omega
-  generalize hb : joinItems comma texts = body at *
-  have hspec : Spec.Ssh.nameList texts = encNat .network 4 body.length ++ body := by
-    simp only [Spec.Ssh.nameList, Spec.Ssh.string, Spec.sshString, ← joinItems_eq_spec, hb, encNat_network,
-      beBytes_eq_spec]
+  have hspec : Spec.Ssh.string body = encNat .network 4 body.length ++ body := by
+    simp only [Spec.Ssh.string, Spec.sshString, encNat_network, beBytes_eq_spec]
   rw [hspec]
-  unfold parseNameList
+  unfold nameListBody
   have htake : (encNat ByteOrder.network 4 body.length ++ body ++ s).take 4 = encNat .network 4 body.length := by
     rw [List.append_assoc]
     exact List.take_left' (encNat_length _ _ _)
@@ -429,25 +518,48 @@ theorem parseNameList_join {codes : List Bytes} (texts : List Bytes) (hg : GoodI
   have := parseNum_enc (bo := .network) vs4 hlt []
   rw [List.append_nil] at this
   rw [this]
+  simp only [bind, Except.bind, hdrop]
+  have hlen : ¬ ((encNat ByteOrder.network 4 body.length ++ body ++ s).length < 4 + body.length) := by
+    simp only [List.length_append, encNat_length]; omega
+  have htk : (body ++ s).take body.length = body := by simp
+  simp only [hlen, if_false, htk]
+  have hc' : (body.getLast? == some comma) = false := by simpa using hc
+  simp [hc', pure, Except.pure]
+
+/-- FULL (was false before the repair): an accepted body is never shorter than declared -/
+theorem nameListBody_complete {bs body : Bytes} {n : Nat} (h : nameListBody bs = .ok (body, n)) :
+    Spec.Ssh.takeString bs = some (body, bs.drop n) := by
+  obtain ⟨h4, hfull, hb, hbl, hn, _⟩ := nameListBody_ok_inv h
+  unfold Spec.Ssh.takeString
+  have h1 : ¬ bs.length < 4 := by omega
+  have hsp : Spec.fromBytesBE (bs.take 4) = beVal (bs.take 4) := by
+    rw [← natOfBE_eq_beVal]; rfl
+  have h2 : ¬ (bs.drop 4).length < beVal (bs.take 4) := by
+    simp only [List.length_drop]; omega
+  simp only [h1, if_false, hsp, h2]
+  rw [hb, hn, ← List.drop_drop]
+
+theorem parseNameList_join {codes : List Bytes} (texts : List Bytes) (hg : GoodItems comma texts)
+    (ha : ∀ t ∈ texts, isAscii t = true) (hl : (joinItems comma texts).length < 2 ^ 32) (s : Bytes) :
+    parseNameList codes (Spec.Ssh.nameList texts ++ s) =
+      .ok (texts.map (classify codes), 4 + (joinItems comma texts).length) := by
+  have hspec : Spec.Ssh.nameList texts = Spec.Ssh.string (joinItems comma texts) := by
+    simp [Spec.Ssh.nameList, joinItems_eq_spec]
+  rw [hspec]
+  unfold parseNameList
+  rw [nameListBody_string _ hl (joinItems_getLast_ne comma texts hg) s]
   simp only [bind, Except.bind]
-  by_cases hz : body.length = 0
-  · have hbn : body = [] := List.length_eq_zero_iff.mp hz
-    have htn : texts = [] := by
-      cases texts with
-      | nil => rfl
-      | cons a r => exact absurd (hb ▸ hbn) (joinItems_ne_nil comma (a :: r) hg (by simp))
-    subst htn
-    simp [hbn, pure, Except.pure]
-  · have hne : texts ≠ [] := by
-      intro h; subst h; simp [joinItems] at hb; subst hb; simp at hz
-    have hbeq : (body.length == 0) = false := by simp [hz]
-    simp only [hbeq, Bool.false_eq_true, if_false, hdrop]
-    have htk : (body ++ s).take body.length = body := by simp
-    rw [htk]
+  cases texts with
+  | nil => simp [joinItems, pure, Except.pure]
+  | cons a r =>
+    have hne := joinItems_ne_nil comma (a :: r) hg (by simp)
+    have hemp : (joinItems comma (a :: r)).isEmpty = false := by
+      simpa [List.isEmpty_iff] using hne
+    simp only [hemp, Bool.false_eq_true, if_false]
     unfold splitItems
-    have hasc : isAscii body = true := hb ▸ isAscii_join texts ha
+    have hasc : isAscii (joinItems comma (a :: r)) = true := isAscii_join _ ha
     simp only [hasc, Bool.not_true, Bool.false_eq_true, if_false]
-    rw [← hb, splitAux_join comma texts hg hne]
+    rw [splitAux_join comma _ hg (by simp)]
     simp [pure, Except.pure]
 
 /-- RoundTrip: order and unknown names are preserved, whatever follows -/
@@ -465,58 +577,59 @@ theorem nameList_roundTrip {codes : List Bytes} (ht : tableOk codes = true) :
   rw [parseNameList_join texts h2 h3 hl s, h4]
   simp [Spec.Ssh.nameList, Spec.Ssh.string, Spec.sshString, Spec.toBytesBE, joinItems_eq_spec]
 
-/-- inversion of a successful parse -/
+theorem splitItems_ok_inv {sep : UInt8} {body : Bytes} {items : List Bytes}
+    (h : splitItems sep body = .ok items) :
+    items ≠ [] ∧ (body = joinItems sep items ∨ body = joinItems sep items ++ [sep]) := by
+  unfold splitItems at h
+  split at h
+  · simp at h
+  · obtain ⟨h1, _, h3⟩ := splitAux_ok_shape sep none body items h
+    simp only [Option.getD_none, List.reverse_nil, List.nil_append] at h3
+    exact ⟨h1, h3⟩
+
+/-- inversion of a successful parse: the body is complete and is EXACTLY the names joined by commas -/
 theorem parseNameList_ok_inv {codes : List Bytes} {bs : Bytes} {ns : List Name} {n : Nat}
     (h : parseNameList codes bs = .ok (ns, n)) :
-    4 ≤ bs.length ∧
-    ((beVal (bs.take 4) = 0 ∧ ns = [] ∧ n = 4) ∨
-     (beVal (bs.take 4) ≠ 0 ∧ ∃ items, splitItems comma ((bs.drop 4).take (beVal (bs.take 4))) = .ok items ∧
-        ns = items.map (classify codes) ∧ n = 4 + ((bs.drop 4).take (beVal (bs.take 4))).length)) := by
+    ∃ body items, nameListBody bs = .ok (body, n) ∧ nameTexts codes ns = .ok items ∧
+      ns = items.map (classify codes) ∧ joinItems comma items = body := by
   unfold parseNameList at h
-  cases hp : parseNum .network 4 (bs.take 4) with
-  | error e => simp [hp, bind, Except.bind] at h
+  cases hb : nameListBody bs with
+  | error e => simp [hb, bind, Except.bind] at h
   | ok r =>
-    obtain ⟨len, m⟩ := r
-    obtain ⟨hm, hlen, _, henc, _⟩ := parseNum_ok_inv hp
-    subst hm
-    have h4 : 4 ≤ bs.length := by
-      have := List.length_take_le 4 bs
-      have h' : (bs.take 4).length = min 4 bs.length := List.length_take
-      omega
-    have hdec : len = beVal (bs.take 4) := by
-      have h1 : (bs.take 4).take 4 = bs.take 4 := by rw [List.take_take]; simp
-      rw [h1] at henc
-      have := congrArg (decNat .network) henc
-      rw [decNat_encNat_of_lt _ _ _ (parseNum_ok_inv hp).2.2.1] at this
-      rw [this]; rfl
-    refine ⟨h4, ?_⟩
-    simp only [hp, bind, Except.bind] at h
-    by_cases hz : len = 0
-    · left
-      subst hz
-      simp [pure, Except.pure] at h
-      exact ⟨hdec.symm, h.1, h.2.symm⟩
-    · right
-      have hbeq : (len == 0) = false := by simp [hz]
-      simp only [hbeq, Bool.false_eq_true, if_false] at h
-      refine ⟨hdec ▸ hz, ?_⟩
-      cases hs : splitItems comma ((bs.drop 4).take len) with
+    obtain ⟨body, m⟩ := r
+    simp only [hb, bind, Except.bind] at h
+    split at h
+    · next he =>
+      simp only [pure, Except.pure, Except.ok.injEq, Prod.mk.injEq] at h
+      obtain ⟨h1, h2⟩ := h
+      subst h1; subst h2
+      have : body = [] := by simpa [List.isEmpty_iff] using he
+      exact ⟨body, [], rfl, rfl, rfl, by simp [joinItems, this]⟩
+    · cases hs : splitItems comma body with
       | error e => simp [hs] at h
       | ok items =>
-        simp [hs, pure, Except.pure] at h
-        exact ⟨items, hdec ▸ hs, h.1.symm, by rw [← hdec, ← h.2]; simp⟩
+        simp only [hs, pure, Except.pure, Except.ok.injEq, Prod.mk.injEq] at h
+        obtain ⟨h1, h2⟩ := h
+        subst h1; subst h2
+        refine ⟨body, items, rfl, nameTexts_map_classify codes items, rfl, ?_⟩
+        obtain ⟨_, hshape | hshape⟩ := splitItems_ok_inv hs
+        · exact hshape.symm
+        · exfalso
+          have hc := (nameListBody_ok_inv hb).2.2.2.2.2
+          apply hc
+          rw [hshape]; simp
 
 theorem nameList_lenBound (codes : List Bytes) : LenBound (nameListCodec codes) := by
   intro bs ns n h
-  obtain ⟨h4, h | ⟨_, items, _, _, hn⟩⟩ := parseNameList_ok_inv h
-  · omega
-  · rw [hn]
-    simp only [List.length_take, List.length_drop]
-    omega
+  obtain ⟨body, items, hb, _⟩ := parseNameList_ok_inv h
+  have := nameListBody_ok_inv hb
+  omega
 
 theorem nameList_positive (codes : List Bytes) : Positive (nameListCodec codes) := by
   intro bs ns n h
-  obtain ⟨h4, h | ⟨_, items, _, _, hn⟩⟩ := parseNameList_ok_inv h <;> omega
+  obtain ⟨body, items, hb, _⟩ := parseNameList_ok_inv h
+  have := nameListBody_ok_inv hb
+  omega
 
 theorem splitItems_no_crash (sep : UInt8) (body : Bytes) (k : String) :
     splitItems sep body ≠ .error (.crash k) := by
@@ -525,24 +638,62 @@ theorem splitItems_no_crash (sep : UInt8) (body : Bytes) (k : String) :
   · simp
   · exact splitAux_no_crash _ _ _ _
 
+theorem nameListBody_noCrash (bs : Bytes) (k : String) : nameListBody bs ≠ .error (.crash k) := by
+  intro h
+  rcases nameListBody_err_inv h with ⟨_, h⟩ | h <;> cases h
+
 theorem nameList_noCrash (codes : List Bytes) : NoCrash (nameListCodec codes) := by
   intro bs k
   simp only [nameListCodec]
   unfold parseNameList
-  cases hp : parseNum .network 4 (bs.take 4) with
+  cases hb : nameListBody bs with
   | error e =>
     simp only [bind, Except.bind]
     intro h; cases h
-    exact parseNum_no_crash vs4 _ _ hp
+    exact nameListBody_noCrash _ _ hb
   | ok r =>
-    obtain ⟨len, m⟩ := r
+    obtain ⟨body, m⟩ := r
     simp only [bind, Except.bind]
     split
     · simp [pure, Except.pure]
-    · cases hs : splitItems comma ((bs.drop 4).take len) with
+    · cases hs : splitItems comma body with
       | error e =>
         intro h; cases h
         exact splitItems_no_crash _ _ _ hs
       | ok items => simp [pure, Except.pure]
+
+/-- every proper prefix of a composed name-list is `NotEnoughData` with `1 ≤ m ≤` really missing
+(true since the repair) -/
+theorem nameListBody_prefix (body : Bytes) (hl : body.length < 2 ^ 32) (j : Nat) (hj : j < 4 + body.length) :
+    ∃ m : Nat, nameListBody ((Spec.Ssh.string body).take j) = .error (.notEnough m) ∧ 1 ≤ m ∧
+      m ≤ 4 + body.length - j := by
+  have hlt : body.length < 256 ^ 4 := by
+    have : (256 : Nat) ^ 4 = 2 ^ 32 := by decide
+    omega
+  have hspec : Spec.Ssh.string body = encNat .network 4 body.length ++ body := by
+    simp only [Spec.Ssh.string, Spec.sshString, encNat_network, beBytes_eq_spec]
+  rw [hspec]
+  unfold nameListBody
+  by_cases hj4 : j < 4
+  · refine ⟨4 - j, ?_, by omega, by omega⟩
+    have hl1 : (((encNat ByteOrder.network 4 body.length ++ body).take j).take 4).length = j := by
+      simp only [List.length_take, List.length_append, encNat_length]; omega
+    rw [parseNum_short (by omega), hl1]
+    rfl
+  · refine ⟨4 + body.length - j, ?_, by omega, by omega⟩
+    have htake : (encNat .network 4 body.length ++ body).take j = encNat .network 4 body.length ++ body.take (j - 4) := by
+      rw [List.take_append]
+      simp [List.take_of_length_le, show 4 ≤ j by omega]
+    rw [htake, List.take_left' (encNat_length _ _ _)]
+    have := parseNum_enc (bo := .network) vs4 hlt []
+    rw [List.append_nil] at this
+    rw [this]
+    simp only [bind, Except.bind]
+    have hlen : (encNat ByteOrder.network 4 body.length ++ body.take (j - 4)).length < 4 + body.length := by
+      simp only [List.length_append, encNat_length, List.length_take]; omega
+    simp only [hlen, if_true]
+    congr 2
+    simp only [List.length_append, encNat_length, List.length_take]
+    omega
 
 end Cp.Ssh
